@@ -87,7 +87,7 @@ func genC15(t *rapid.T) c15Case {
 			c.Steps = append(c.Steps, c15Step{Reload: true, Policy: genC15Policy(t, "pn")})
 			continue
 		}
-		call := &c15Call{Kind: rapid.SampledFrom(c15Kinds).Draw(t, "kind"), Client: rapid.IntRange(0, 1).Draw(t, "client"), Res: rapid.IntRange(0, 1).Draw(t, "res"), Arg: rapid.IntRange(0, 50).Draw(t, "arg")}
+		call := &c15Call{Kind: rapid.SampledFrom(c15Kinds).Draw(t, "kind"), Client: rapid.SampledFrom([]int{0, 0, 1, 1, 2}).Draw(t, "client"), Res: rapid.IntRange(0, 1).Draw(t, "res"), Arg: rapid.IntRange(0, 50).Draw(t, "arg")}
 		if call.Kind == "publish-async" {
 			for j, m := 0, rapid.IntRange(1, 3).Draw(t, "nb"); j < m; j++ {
 				call.Batch = append(call.Batch, rapid.IntRange(0, 1).Draw(t, "br"))
@@ -341,7 +341,12 @@ func runC15(c c15Case, o *vfutil.Obs) *vfutil.Failure {
 		if err := w.restoreBase(); err != nil {
 			return vfutil.Failf("harness/restore", "history %v: %v", hist, err)
 		}
-		cl := c15Clients[call.Client%2]
+		// (client 2 is a caller without a verified certificate: the interceptor
+		// leaves its context without a client id, and it is allowed nothing)
+		cl := append(append([]string{}, c15Clients...), "")[call.Client%3]
+		if cl == "" {
+			o.Label("caller-without-identity")
+		}
 		res := []string{"foo", "bar"}[call.Res%2]
 		a := w.api()
 		w.seq++
